@@ -87,6 +87,7 @@ Definition entry_arrays (point dim2 : bool) (n : Z) (key : str) (shape : list Z)
       Ok (map (fun i => mk_array point padv n ncomp (vec_name point nvec key i)
                                  (if ax =? 0 then block_col cols i ws else block_row cols i ws))
               (zrange nvec))
+    else if nvec <? 1 then Ok []                            (* for i in range(nvectors): no iteration *)
     else if padv && (ndim shape =? 2) then Err ValueError   (* a 2-D slice cannot be broadcast into vec_pad[0::3] *)
     else Ok [mk_array point padv n ncomp key ws]
   end.
